@@ -1,6 +1,7 @@
 import TssVerif.Core.Zk
 import TssVerif.Props.C16
 import TssVerif.Lemmas.C12
+import TssVerif.Lemmas.C12Mod
 /-! # C12 — zero-knowledge proofs are bound to their context and are not malleable
 
 "A proof accepted for one (session string, public statement) is rejected for any other session string
@@ -21,7 +22,8 @@ Layout
    `range_no_session`) and what the Paillier key proof binds;
 2. the protocol's session strings `ssid ++ bytes(i)` differ for different participants;
 3. a proof accepted under two challenges forces the challenges to coincide (group algebra);
-4. responses are determined modulo the group order;
+4. responses are determined modulo the group order; the fourth roots of `modproof` are determined
+   (the verifier accepts only the smaller of `x`, `N − x`; any other accepted root factors `N`);
 5. moving a commitment changes the hashed bytes.
 
 Definitions of the pre-image lists (`Schnorr.preimage`, …) and `NonNeg` are in `TssVerif/Lemmas/C12.lean`.
@@ -641,6 +643,64 @@ theorem dln_response_order {alpha t t' : List Int} {h1 h2 n : Int}
     (h1 % n).toNat ^ (t.getD i 0 - t'.getD i 0).natAbs % n.toNat = 1 % n.toNat :=
   C12L.dln_order H h h' hg hi ht ht'
 
+/-! ### Paillier-Blum modulus proof: the fourth roots `X_i`
+
+`x` and `N − x` have the same fourth power modulo `N`, so a verifier that only checks `X_i^4 ≡ ±W^b·Y_i` accepts
+both (`mod_old_negated_root_accepted_witness`). The prover sends, and the current verifier accepts, only the
+representative with `2·x ≤ N`. The two remaining fourth roots `±x·√1` in that range differ from `x` by a
+non-trivial square root of `1`, which reveals a factor of `N` (`mod_other_root_reveals_factor`). -/
+
+/-- the verifier before the repair: both `x` and `N − x` pass -/
+abbrev modPreCanonical : Cfg := { cur with modCanonicalRoot := false }
+
+/-- the current verifier accepts only roots in `(0, N/2]` -/
+theorem mod_accept_canonical {sess : Bytes} {w : Int} {xs : List Int} {a b : Int} {zs : List Int} {n : Int}
+    (h : modVerify cur H sess w xs a b zs n = .ok true) : ∀ x ∈ xs, 2 * x ≤ n :=
+  C12L.modVerify_accept_canonical H sess w xs a b zs n h
+
+/-- **negating a root**: replacing an entry `x` (with `2·x < N`, which for odd `N` is `2·x ≤ N`) of the root
+vector by `N − x` is never accepted, whatever the other components are -/
+theorem mod_negated_root_rejected (sess : Bytes) (w : Int) (xs : List Int) (a b : Int) (zs : List Int)
+    (n x : Int) (i : Nat) (hi : xs[i]? = some x) (hlt : 2 * x < n) :
+    modVerify cur H sess w (xs.set i (n - x)) a b zs n ≠ .ok true :=
+  C12L.modVerify_negated_root H sess w xs a b zs n x i hi hlt
+
+/-- **before the repair the negated root was accepted**: `N = 77 = 7·11`, `W = 2`, all challenges `3`. The
+prover's proof (roots `13`) passes both verifiers; with the first root replaced by `77 − 13 = 64` it still
+passes the verifier without the canonical-root check and is rejected by the current one. -/
+theorem mod_old_negated_root_accepted_witness :
+    (modProve (fun _ => [3]) [] 77 7 11 2 >>= fun pf =>
+      modVerify modPreCanonical (fun _ => [3]) [] (pf.1 : Int) (pf.2.1.map Int.ofNat) (pf.2.2.1 : Int)
+        (pf.2.2.2.1 : Int) (pf.2.2.2.2.map Int.ofNat) 77) = .ok true ∧
+    (modProve (fun _ => [3]) [] 77 7 11 2 >>= fun pf =>
+      modVerify modPreCanonical (fun _ => [3]) [] (pf.1 : Int)
+        ((pf.2.1.map Int.ofNat).set 0 (77 - (pf.2.1.map Int.ofNat).getD 0 0)) (pf.2.2.1 : Int)
+        (pf.2.2.2.1 : Int) (pf.2.2.2.2.map Int.ofNat) 77) = .ok true ∧
+    (modProve (fun _ => [3]) [] 77 7 11 2 >>= fun pf =>
+      modVerify cur (fun _ => [3]) [] (pf.1 : Int)
+        ((pf.2.1.map Int.ofNat).set 0 (77 - (pf.2.1.map Int.ofNat).getD 0 0)) (pf.2.2.1 : Int)
+        (pf.2.2.2.1 : Int) (pf.2.2.2.2.map Int.ofNat) 77) = .ok false ∧
+    (modProve (fun _ => [3]) [] 77 7 11 2 >>= fun pf =>
+      modVerify cur (fun _ => [3]) [] (pf.1 : Int) (pf.2.1.map Int.ofNat) (pf.2.2.1 : Int)
+        (pf.2.2.2.1 : Int) (pf.2.2.2.2.map Int.ofNat) 77) = .ok true ∧
+    (modProve (fun _ => [3]) [] 77 7 11 2).bind (fun pf => .ok (pf.2.1.getD 0 0)) = .ok 13 := by
+  decide +kernel
+
+/-- **two accepted roots of one challenge**: different `x`, `x'` in `(0, N/2]` with `x^4 ≡ x'^4` modulo an odd `N`
+give the multiple `(x + x')·|x − x'|·(x² + x'²)` of `N`, and neither `x + x'` nor `|x − x'|` is a multiple -/
+theorem mod_root_unique_up_to_factoring {n x x' : Nat} (hn : n % 2 = 1) (hx : 0 < x) (hx' : 0 < x')
+    (hx2 : 2 * x ≤ n) (hx2' : 2 * x' ≤ n) (hne : x ≠ x') (h4 : x ^ 4 % n = x' ^ 4 % n) :
+    n ∣ (x + x') * (max x x' - min x x') * (x ^ 2 + x' ^ 2) ∧ ¬ n ∣ x + x' ∧ ¬ n ∣ max x x' - min x x' :=
+  C12L.fourth_root_diff hn hx hx' hx2 hx2' hne h4
+
+/-- … and for a Blum integer `N = p·q`, `p ≡ q ≡ 3 (mod 4)` (`−1` is a square modulo neither prime, so
+`x² + x'²` is a unit when `x` is): **any second root in the accepted range yields a proper factor of `N`** -/
+theorem mod_other_root_reveals_factor {n p q x x' : Nat} (hn : n = p * q) (hp : p.Prime) (hq : q.Prime)
+    (hp4 : p % 4 = 3) (hq4 : q % 4 = 3) (hx : 0 < x) (hx' : 0 < x') (hx2 : 2 * x ≤ n) (hx2' : 2 * x' ≤ n)
+    (hne : x ≠ x') (hxc : Nat.Coprime x n) (h4 : x ^ 4 % n = x' ^ 4 % n) :
+    1 < Nat.gcd (max x x' - min x x') n ∧ Nat.gcd (max x x' - min x x') n < n :=
+  C12L.blum_gcd_proper hn hp hq hp4 hq4 hx hx' hx2 hx2' hne hxc h4
+
 /-! ## 5. moving a commitment changes what is hashed -/
 
 /-- generic: a pre-image map that determines its arguments separates different commitments -/
@@ -790,6 +850,21 @@ theorem range_toy_accept : rangeVerify cur H5 23 35 77 2 4 683 ⟨43, 957, 23, 2
 
 example : 23 * 43 ^ 5 % 77 = 2 ^ 45 * 4 ^ 35 % 77 :=
   (range_accept_equation H5 range_toy_accept).2.2.2.2.2.2.2
+
+/-- `modproof`, `N = 77`: the entry `13` of a root vector replaced by `77 − 13` is rejected -/
+example (a b : Int) (zs : List Int) :
+    modVerify cur H5 [] 2 ((List.replicate 80 (13 : Int)).set 0 (77 - 13)) a b zs 77 ≠ .ok true :=
+  mod_negated_root_rejected H5 [] 2 _ a b zs 77 13 0 rfl (by decide)
+
+/-- `13` and `20` are the two fourth roots of `71` modulo `77` in `(0, 38]`; their difference is the factor `7` -/
+example : (77 ∣ (13 + 20) * (max 13 20 - min 13 20) * (13 ^ 2 + 20 ^ 2) ∧ ¬ 77 ∣ 13 + 20 ∧
+    ¬ 77 ∣ max 13 20 - min 13 20) :=
+  mod_root_unique_up_to_factoring (by decide) (by decide) (by decide) (by decide) (by decide) (by decide)
+    (by decide)
+example : 1 < Nat.gcd (max 13 20 - min 13 20) 77 ∧ Nat.gcd (max 13 20 - min 13 20) 77 < 77 :=
+  mod_other_root_reveals_factor (p := 7) (q := 11) (by decide) (by decide) (by decide) (by decide) (by decide)
+    (by decide) (by decide) (by decide) (by decide) (by decide) (by decide) (by decide)
+example : Nat.gcd (max 13 20 - min 13 20) 77 = 7 := by decide
 
 /-- participants 1 and 2 of one `ssid` have different session strings -/
 example : ([7, 7] : Bytes) ++ natToBytesBE 1 ≠ [7, 7] ++ natToBytesBE 2 :=
